@@ -7,6 +7,7 @@ import (
 	"go/ast"
 	"go/token"
 	"go/types"
+	"regexp"
 	"strings"
 
 	"golang.org/x/tools/go/packages"
@@ -1126,8 +1127,8 @@ func ruleMapOrderPkg(c *Ctx, rule string, pk *packages.Package, usedTriage, used
 				inst := l.Key + "/" + e.Obj.Name()
 				ok, why := sortedBeforeUse(p, l, e.Obj, c02ConsumerSorts)
 				if !ok {
-					if r, has := c02AppendTriage[inst]; has {
-						usedAppend[inst] = true
+					if r, key, has := lookupAppendTriage(inst); has {
+						usedAppend[key] = true
 						c.Ob(rule, inst, e.Pos, true, true, "slice filled in map order, reviewed: %s", r)
 						continue
 					}
@@ -1169,4 +1170,23 @@ func bindModuleSortFunc(p *Prog) {
 		memo[fn] = v
 		return v
 	}
+}
+
+var reLoopOrdinal = regexp.MustCompile(`#\d+/`)
+
+// lookupAppendTriage finds the reviewed entry for a slice filled in map order. The ordinal of the loop among the
+// function's loops over that map type is part of the key only to tell loops apart; when a function is restructured
+// the ordinal may shift, so an entry for the same function, map type and slice under another ordinal is the same
+// review (the slice name and the function identify what was reviewed).
+func lookupAppendTriage(inst string) (reason, key string, ok bool) {
+	if r, has := c02AppendTriage[inst]; has {
+		return r, inst, true
+	}
+	norm := reLoopOrdinal.ReplaceAllString(inst, "#*/")
+	for _, k := range sortedKeys(c02AppendTriage) {
+		if reLoopOrdinal.ReplaceAllString(k, "#*/") == norm {
+			return c02AppendTriage[k], k, true
+		}
+	}
+	return "", "", false
 }
